@@ -1,6 +1,87 @@
+//! Hand-modelled engine code: token fingerprints of every function (drift
+//! detection), plus the few constants the models take from the source.
+use crate::common::*;
 use crate::Ctx;
 use serde_json::{json, Value};
 
-pub fn extract(_cx: &mut Ctx) -> Value {
-    json!({})
+const FILES: &[&str] = &[
+    "rspirv/binary/decoder.rs",
+    "rspirv/binary/parser.rs",
+    "rspirv/binary/tracker.rs",
+    "rspirv/binary/assemble.rs",
+    "rspirv/binary/disassemble.rs",
+    "rspirv/dr/loader.rs",
+    "rspirv/dr/constructs.rs",
+    "rspirv/dr/build/mod.rs",
+    "rspirv/sr/storage.rs",
+    "rspirv/lift/storage.rs",
+    "rspirv/lift/mod.rs",
+    "rspirv/utils/version.rs",
+    "dis/main.rs",
+];
+
+fn walk_items(rel: &str, prefix: &str, items: &[syn::Item], out: &mut serde_json::Map<String, Value>) {
+    for item in items {
+        match item {
+            syn::Item::Fn(f) => {
+                out.insert(format!("{}::{}{}", rel, prefix, f.sig.ident), json!(fingerprint(f)));
+            }
+            syn::Item::Impl(imp) => {
+                let ty = tokens_string(&imp.self_ty).replace(' ', "");
+                let tr = imp
+                    .trait_
+                    .as_ref()
+                    .map(|(_, p, _)| format!("<{}>", last(&path_segments(p))))
+                    .unwrap_or_default();
+                for it in &imp.items {
+                    if let syn::ImplItem::Fn(f) = it {
+                        out.insert(
+                            format!("{}::{}{}{}::{}", rel, prefix, ty, tr, f.sig.ident),
+                            json!(fingerprint(f)),
+                        );
+                    }
+                }
+            }
+            syn::Item::Mod(m) => {
+                let is_test = m.attrs.iter().any(|a| tokens_string(a).contains("cfg ( test )"));
+                if !is_test {
+                    if let Some((_, items)) = &m.content {
+                        walk_items(rel, &format!("{}{}::", prefix, m.ident), items, out);
+                    }
+                }
+            }
+            syn::Item::Macro(m) => {
+                if let Some(id) = &m.ident {
+                    out.insert(format!("{}::{}macro:{}", rel, prefix, id), json!(fingerprint(m)));
+                }
+            }
+            syn::Item::Trait(t) => {
+                out.insert(format!("{}::{}trait:{}", rel, prefix, t.ident), json!(fingerprint(t)));
+            }
+            _ => {}
+        }
+    }
+}
+
+pub fn extract(cx: &mut Ctx) -> Value {
+    let mut fps = serde_json::Map::new();
+    let mut storage_index = Value::Null;
+    for rel in FILES {
+        if let Some(file) = cx.parse(rel) {
+            walk_items(rel, "", &file.items, &mut fps);
+            if *rel == "rspirv/sr/storage.rs" {
+                for item in &file.items {
+                    if let syn::Item::Type(t) = item {
+                        if t.ident == "Index" {
+                            storage_index = json!(tokens_string(&t.ty).trim());
+                        }
+                    }
+                }
+            }
+        }
+    }
+    if storage_index.is_null() {
+        cx.fail("rspirv/sr/storage.rs: `type Index` not found".to_string());
+    }
+    json!({"fingerprints": fps, "storage_index_type": storage_index})
 }
